@@ -16,17 +16,21 @@ Space I (bounded-exhaustive, no sampling). Four parts:
 A case is plain JSON: {"kinds": [...], "opts": {...}} | {"pre": 0|1, "secs": [[level, body], ...]} | {"file": name}.
 All tokens are allocated from Tokens(seed) in source order, so the case alone determines the document.
 
-Oracle clauses (each demands only what the statement says):
-  count   one unit per page / slide / sheet / chapter / message (mbox: one result per message with exactly one unit each);
-          flowing formats: exactly one unit, or between (#sections with content) and (#sections) units, never zero
-  number  unit numbers are ints >= 1, strictly increasing (no repeats); a unit that holds text of source unit i only is
+Oracle clauses (each demands only what the statement says; the part after the colon names the way it failed):
+  count:missing / count:extra / count:none
+          one unit per page / slide / sheet / chapter / message (mbox: one result per message with exactly one unit each);
+          flowing formats: exactly one unit, or between (#heading sections with content) and (#sections) units, never zero
+  number:invalid / number:repeat / number:position
+          unit numbers are ints >= 1, strictly increasing (no repeats); a unit that holds text of source unit i only is
           numbered i; when the count is right the numbers are 1..n (mbox: judged per result, every unit is number 1)
   order   units come in source order
-  cover   every body token is found (get_text(), a cell of get_tables(), heading path / location / title) in exactly one
+  cover:lost / cover:dup / cover:mixed (/ cover:spread / cover:path for flowing formats)
+          every body token is found (get_text(), a cell of get_tables(), heading path / location / title) in exactly one
           unit, and no unit mixes text of two source units; flowing formats with more than one unit: a unit does not mix
           two sections, a section's text is not spread over several units, a unit's heading path names its own heading
-  cover-heading (flowing formats) every heading text is found in the text or heading path of at least one unit and only
-          in units of its own section or of sections nested below it
+  cover-heading:lost / cover-heading:misplaced  (flowing formats)
+          every heading text is found in the text or heading path of at least one unit and only in units of its own
+          section or of sections nested below it
   join    pdf, pptx, odp, xlsx, ods, epub, html, mhtml, plain, e-mail, odg, odf: get_full_text() equals
           "\\n".join(unit texts).strip()
   raises  the extractor raised on a valid generated document (no units at all)
@@ -417,10 +421,10 @@ def check_join(o, fails, where=""):
 
 def check_numbers_basic(nums, fails, where=""):
     if not all(_is_int(n) and n >= 1 for n in nums):
-        fails.append(("number", f"{where}unit numbers {nums} are not all ints >= 1"))
+        fails.append(("number:invalid", f"{where}unit numbers {nums} are not all ints >= 1"))
         return False
     if any(b <= a for a, b in zip(nums, nums[1:])):
-        fails.append(("number", f"{where}unit numbers {nums} are not strictly increasing (repeat or disorder)"))
+        fails.append(("number:repeat", f"{where}unit numbers {nums} are not strictly increasing (repeat or disorder)"))
         return False
     return True
 
@@ -448,13 +452,13 @@ def evaluate_vec(fmt, case, seed):
         # one result per message, each with one unit numbered 1 (README table)
         units = []
         if len(obs) != n:
-            fails.append(("count", f"{n} messages {kinds} -> {len(obs)} results"))
+            fails.append(("count:missing" if len(obs) < n else "count:extra", f"{n} messages {kinds} -> {len(obs)} results"))
         for ri, o in enumerate(obs):
             if len(o["units"]) != 1:
-                fails.append(("count", f"result {ri + 1} of the mailbox has {len(o['units'])} units, expected 1"))
+                fails.append(("count:missing" if not o["units"] else "count:extra", f"result {ri + 1} of the mailbox has {len(o['units'])} units, expected 1"))
             nums = [u["num"] for u in o["units"]]
             if check_numbers_basic(nums, fails, f"result {ri + 1}: ") and len(nums) == 1 and nums != [1]:
-                fails.append(("number", f"result {ri + 1}: the only unit of a message is numbered {nums}"))
+                fails.append(("number:position", f"result {ri + 1}: the only unit of a message is numbered {nums}"))
             check_join(o, fails, f"result {ri + 1}: ")
             merged = {"num": ri + 1, "toks": set(), "path": set(), "text": ""}
             for u in o["units"]:
@@ -463,18 +467,18 @@ def evaluate_vec(fmt, case, seed):
         nums_for_identity = False
     else:
         if len(obs) != 1:
-            fails.append(("count", f"{len(obs)} results for one {fmt} document"))
+            fails.append(("count:missing" if not obs else "count:extra", f"{len(obs)} results for one {fmt} document"))
         units = [dict(u, toks=u["toks"] | u["path"]) for o in obs for u in o["units"]]
         xh = [i for i, k in enumerate(kinds) if k != "svg"]
         ok_counts = {n, len(xh)}
         if fmt == "rtf" and n == 1 and not truth[0]["body"]:
             ok_counts.add(0)       # no explicit page and no text: flowing document without content, "no unit" is not judged
         if len(units) not in ok_counts:
-            fails.append(("count", f"{n} source units {kinds} -> {len(units)} units (texts {[u['text'] for u in units]})"))
+            fails.append(("count:missing" if len(units) < min(ok_counts) else "count:extra", f"{n} source units {kinds} -> {len(units)} units (texts {[u['text'] for u in units]})"))
         nums = [u["num"] for u in units]
         nums_ok = check_numbers_basic(nums, fails)
         if nums_ok and len(units) in ok_counts and "svg" not in kinds and nums != list(range(1, len(units) + 1)):
-            fails.append(("number", f"{n} source units {kinds} -> unit numbers {nums}, expected 1..{len(units)}"))
+            fails.append(("number:position", f"{n} source units {kinds} -> unit numbers {nums}, expected 1..{len(units)}"))
         nums_for_identity = nums_ok
         if fmt in JOIN_FORMATS:
             for o in obs:
@@ -486,17 +490,19 @@ def evaluate_vec(fmt, case, seed):
     for tok in body_toks:
         holders = [k for k, u in enumerate(units) if tok in u["toks"]]
         if not holders:
-            fails.append(("cover", f"text of source unit {owner[tok] + 1} ({kinds[owner[tok]]}) is in no unit; units {[u['text'] for u in units]}"))
+            fails.append(("cover:lost", f"text of source unit {owner[tok] + 1} ({kinds[owner[tok]]}) is in no unit; units {[u['text'] for u in units]}"))
             break
     for tok in body_toks:
         holders = [k for k, u in enumerate(units) if tok in u["toks"]]
         if len(holders) > 1:
-            fails.append(("cover", f"text of source unit {owner[tok] + 1} is returned in {len(holders)} units (positions {[h + 1 for h in holders]})"))
+            fails.append(("cover:dup", f"text of source unit {owner[tok] + 1} is returned in {len(holders)} units (positions {[h + 1 for h in holders]})"))
             break
+    n_holders = {tok: sum(1 for u in units if tok in u["toks"]) for tok in body_toks}
     for k, s in enumerate(src_of):
-        bs = sorted({owner[t] for t in units[k]["toks"] if t in owner and t in body_toks})
+        # text returned twice is reported as cover:dup; 'mixed' is judged on the text that has exactly one holder
+        bs = sorted({owner[t] for t in units[k]["toks"] if n_holders.get(t) == 1})
         if len(bs) > 1:
-            fails.append(("cover", f"unit {k + 1} (number {units[k]['num']}) mixes the text of source units {[b + 1 for b in bs]} of {kinds}"))
+            fails.append(("cover:mixed", f"unit {k + 1} (number {units[k]['num']}) mixes the text of source units {[b + 1 for b in bs]} of {kinds}"))
             break
     firsts = [s[0] for s in src_of if s]
     if any(b < a for a, b in zip(firsts, firsts[1:])):
@@ -507,7 +513,7 @@ def evaluate_vec(fmt, case, seed):
             if len(s) == 1:
                 ok = {s[0] + 1, xh_pos.get(s[0])} if "svg" in kinds else {s[0] + 1}
                 if units[k]["num"] not in ok:
-                    fails.append(("number", f"the unit holding source unit {s[0] + 1} of {kinds} is numbered {units[k]['num']}"))
+                    fails.append(("number:position", f"the unit holding source unit {s[0] + 1} of {kinds} is numbered {units[k]['num']}"))
                     break
     outcome = (len(obs), tuple(u["num"] for u in units), tuple(tuple(s) for s in src_of), tuple(sorted({c for c, _ in fails})))
     return _dedup(fails), str(outcome)
@@ -530,7 +536,7 @@ def evaluate_head(fmt, case, seed):
         return [("raises", f"{type(e).__name__}: {str(e)[:300]} on a valid {fmt} with heading structure {case}")], "raises:" + type(e).__name__
     fails = []
     if len(obs) != 1:
-        fails.append(("count", f"{len(obs)} results for one {fmt} document"))
+        fails.append(("count:missing" if not obs else "count:extra", f"{len(obs)} results for one {fmt} document"))
     units = [u for o in obs for u in o["units"]]
     nums = [u["num"] for u in units]
     present = [i for i, s in enumerate(secs) if s["present"]]
@@ -540,11 +546,11 @@ def evaluate_head(fmt, case, seed):
     shape = [(s["level"], len(s["body"])) for s in secs if s["present"]]
     desc = f"sections (level, #body pieces; level 0 = preamble) {shape}"
     if len(units) == 0:
-        fails.append(("count", f"no unit at all for a document with {desc}; full text {obs[0]['full'] if obs else None!r}"))
+        fails.append(("count:none", f"no unit at all for a document with {desc}; full text {obs[0]['full'] if obs else None!r}"))
     elif len(units) != 1 and not (lo_units <= len(units) <= len(present)):
-        fails.append(("count", f"{len(units)} units for {desc}: neither one unit nor one per heading section"))
+        fails.append(("count:missing" if len(units) < lo_units else "count:extra", f"{len(units)} units for {desc}: neither one unit nor one per heading section"))
     if check_numbers_basic(nums, fails) and nums and nums != list(range(1, len(nums) + 1)):
-        fails.append(("number", f"unit numbers {nums} are not the 1-based positions 1..{len(nums)}"))
+        fails.append(("number:position", f"unit numbers {nums} are not the 1-based positions 1..{len(nums)}"))
     owner = {}
     for i, s in enumerate(secs):
         for t in s["body"]:
@@ -558,28 +564,30 @@ def evaluate_head(fmt, case, seed):
         for tok, i in owner.items():
             holders = [k for k, u in enumerate(units) if tok in u["toks"]]
             if not holders:
-                fails.append(("cover", f"body text of section {i} ({'preamble' if i == 0 else 'level %d' % secs[i]['level']}) is in no unit; {desc}; units {[(u['text'], sorted(u['path'])) for u in units]}"))
+                fails.append(("cover:lost", f"body text of section {i} ({'preamble' if i == 0 else 'level %d' % secs[i]['level']}) is in no unit; {desc}; units {[(u['text'], sorted(u['path'])) for u in units]}"))
                 break
         for tok, i in owner.items():
             holders = [k for k, u in enumerate(units) if tok in u["toks"]]
             if len(holders) > 1:
-                fails.append(("cover", f"body text of section {i} is returned in units {[h + 1 for h in holders]}; {desc}"))
+                fails.append(("cover:dup", f"body text of section {i} is returned in units {[h + 1 for h in holders]}; {desc}"))
                 break
     if len(units) > 1:
-        for k, s in enumerate(body_in):
+        n_holders = {tok: sum(1 for u in units if tok in u["toks"]) for tok in owner}
+        for k, u in enumerate(units):
+            s = sorted({owner[t] for t in u["toks"] if n_holders.get(t) == 1})
             if len(s) > 1:
-                fails.append(("cover", f"unit {k + 1} mixes the body text of sections {s}; {desc}"))
+                fails.append(("cover:mixed", f"unit {k + 1} mixes the body text of sections {s}; {desc}"))
                 break
         for i in nonempty:
             hs = [k for k, s in enumerate(body_in) if i in s]
             if len(hs) > 1:
-                fails.append(("cover", f"the body text of section {i} is spread over units {[h + 1 for h in hs]}; {desc}"))
+                fails.append(("cover:spread", f"the body text of section {i} is spread over units {[h + 1 for h in hs]}; {desc}"))
                 break
         for k, s in enumerate(body_in):
             if len(s) == 1 and s[0] > 0:
                 h = secs[s[0]]["h"]
                 if h not in units[k]["path"] and h not in find_tokens(units[k]["text"] or ""):
-                    fails.append(("cover", f"unit {k + 1} holds the body of section {s[0]} but neither its heading path {sorted(units[k]['path'])} nor its text names that section's heading; {desc}"))
+                    fails.append(("cover:path", f"unit {k + 1} holds the body of section {s[0]} but neither its heading path {sorted(units[k]['path'])} nor its text names that section's heading; {desc}"))
                     break
         firsts = [s[0] for s in body_in if s]
         if any(b < a for a, b in zip(firsts, firsts[1:])):
@@ -588,13 +596,13 @@ def evaluate_head(fmt, case, seed):
         for h, i in hsec.items():
             holders = [k for k, u in enumerate(units) if h in u["path"] or h in find_tokens(u["text"] or "")]
             if not holders:
-                fails.append(("cover-heading", f"heading text of section {i} (level {secs[i]['level']}) is in no unit's text or heading path; {desc}; units {[(u['text'], sorted(u['path'])) for u in units]}"))
+                fails.append(("cover-heading:lost", f"heading text of section {i} (level {secs[i]['level']}) is in no unit's text or heading path; {desc}; units {[(u['text'], sorted(u['path'])) for u in units]}"))
                 break
         if len(units) > 1:
             for h, i in hsec.items():
                 bad = [k for k, u in enumerate(units) if h in u["path"] and len(body_in[k]) == 1 and not below(i, body_in[k][0])]
                 if bad:
-                    fails.append(("cover-heading", f"heading of section {i} is in the heading path of unit {bad[0] + 1}, which holds section {body_in[bad[0]]} (not that section or one nested below it); {desc}"))
+                    fails.append(("cover-heading:misplaced", f"heading of section {i} is in the heading path of unit {bad[0] + 1}, which holds section {body_in[bad[0]]} (not that section or one nested below it); {desc}"))
                     break
     outcome = (len(units), tuple(nums), tuple(tuple(s) for s in body_in), tuple(sorted({c for c, _ in fails})))
     return _dedup(fails), str(outcome)
@@ -628,6 +636,20 @@ def evaluate(fmt, case, seed=0):
 
 _RX_CACHE: dict = {}
 _RX_LAST = [None]
+
+
+def describe(fmt, case, seed=0):
+    """Written-out observation of one case for the evidence samples: [(result index, unit number, text, heading path)]."""
+    try:
+        if "file" in case:
+            import sharepoint2text
+            obs = observe(list(sharepoint2text.read_file(os.path.join(RES_DIR, case["file"]))))
+        else:
+            data = (render_head if "secs" in case else render_vec)(fmt, case, seed)[0]
+            obs = observe(extract(fmt, data))
+        return [[ri + 1, u["num"], (u["text"] or "")[:80], sorted(u["path"])] for ri, o in enumerate(obs) for u in o["units"]][:8]
+    except Exception as e:  # noqa
+        return f"{type(e).__name__}: {e}"[:200]
 
 
 def reexec(fmt, case):
@@ -731,7 +753,7 @@ def _work(arg):
         for clause, msg in f:
             fails.append((clause, label, case, msg))
         if len(samples) < 1 and ev == 3:
-            samples.append({"fmt": label, "case": case, "outcome": oc})
+            samples.append({"fmt": label, "case": case, "outcome": oc, "units (result, number, text, path)": describe(label, case, seed)})
     return {"ev": ev, "skipped": skipped, "fails": fails, "outcomes": outcomes, "samples": samples}
 
 
